@@ -87,11 +87,12 @@ def simulate(it, f, v, J, prog, names):
                 a0, a1 = o.f[('arg', 0)], o.f[('arg', 1)]
                 if a0 != v or not (isinstance(a1, tuple) and a1[0] == 'const'):
                     return ('bad-inst %s' % op, nceq)
+                mask = 2 ** 32 - 1 if op in ('ICEQW', 'ICULTW') else 2 ** 64 - 1     # QBE compares the low 32 bits for class w
                 if op in ('ICEQW', 'ICEQL'):
                     nceq += 1
-                    env[o.id] = int(probe == a1[1])
+                    env[o.id] = int(probe & mask == a1[1] & mask)
                 elif op in ('ICULTW', 'ICULTL'):
-                    env[o.id] = int(probe < a1[1])
+                    env[o.id] = int(probe & mask < a1[1] & mask)
                 else:
                     return ('bad-op %s' % op, nceq)
                 cmp_ok.add(op)
@@ -316,8 +317,100 @@ def rule_controlling(chk, prog, tier):
     r.exhaustive = True
 
 
+# ------------------------------------------------------------------ C15.f case constants are converted to the controlling type
+
+def rule_case_conversion(chk, prog, tier):
+    r = chk.rule('C15.f', 'each case constant is converted to the promoted type of the controlling expression before it is entered: two constants that are equal after conversion are diagnosed as duplicates, and a value of the '
+                 'controlling expression reaches the label whose converted constant it equals (the compare ladder stays consistent with the 32-bit comparisons it emits)',
+                 floor=30, oracle='C11 6.8.4.2p3, p5; QBE w-class comparisons use the low 32 bits')
+    lab = prog.require_func('label', 'stmt.c')
+    fsw = prog.require_func('funcswitch')
+    mkblock = prog.require_func('mkblock')
+    M = models(prog)
+    J = {k: ev(prog, k) for k in ('JUMP_NONE', 'JUMP_JMP', 'JUMP_JNZ', 'JUMP_RET', 'JUMP_HLT')}
+    names = cmodel.instnames(prog)
+    B = {'int': (32, True), 'uint': (32, False), 'long': (64, True), 'ulong': (64, False)}
+    def conv(v, ty):
+        bits, signed = B[ty]
+        v &= 2 ** bits - 1
+        return v - 2 ** bits if signed and v >> (bits - 1) else v
+    P32 = 2 ** 32
+    SETS = [[1, 2, 3], [2, P32 + 1], [P32 + 1, 2], [1, P32 + 1], [5, -1, P32 + 7, 3], [-1, P32 - 1], [2 ** 31, 7], [2 ** 31, -2 ** 31], [P32, 1], [P32, 0], [-1, -2, 2 ** 63], [10, P32 + 30, 20, 2 * P32 + 5, 40],
+            [-P32 + 4, 3, 5], [2 ** 64 - 1, 1], [2 ** 64 - 1, -1]]
+    for ty in ('int', 'uint', 'long', 'ulong'):
+        for vals in SETS:
+            def runner(it):
+                it.MAX_STEPS = 400000
+                w = World(prog, it=it, target='x86_64-sysv')
+                cases = Obj('switchcases', 'heap')
+                cases.f[('root',)] = None; cases.f[('type',)] = w.t(ty); cases.f[('defaultlabel',)] = None
+                sc = Obj('scope', 'heap'); sc.f.update({('parent',): None, ('switchcases',): Ptr(cases, ())})
+                tokobj = it.gobj('tok'); st = {'i': 0}
+                toks = []
+                for v in vals: toks += ['TCASE', ('N', v), 'TCOLON']
+                toks.append('TSEMICOLON')
+                def cur(): return toks[min(st['i'], len(toks) - 1)]
+                def load():
+                    k = cur()
+                    tokobj.f[('kind',)] = ev(prog, 'TNUMBER' if isinstance(k, tuple) else k); tokobj.f[('lit',)] = None
+                    tokobj.f[('loc', 'file')] = None; tokobj.f[('loc', 'line')] = 1; tokobj.f[('loc', 'col')] = 1
+                def nxt(i2, a, e): st['i'] += 1; load(); return None
+                def expect(i2, a, e):
+                    if isinstance(cur(), tuple) or tokobj.f[('kind',)] != a[0]: raise Terminal('error', 'expected token')
+                    nxt(i2, a, e); return None
+                def ice(i2, a, e):
+                    if not isinstance(cur(), tuple): raise Terminal('error', 'expected expression')
+                    v = cur()[1]; nxt(i2, a, e); return v % 2 ** 64       # intconstexpr returns the value as a 64-bit pattern
+                bodies = []
+                def funclabel(i2, a, e): bodies.append(a[1]); return None
+                f = Obj('func', 'heap')
+                it.models.update({'next': nxt, 'expect': expect, 'intconstexpr': ice, 'funclabel': funclabel, 'attr': lambda i2, a, e: 0, 'peek': lambda i2, a, e: 0})
+                load()
+                dup = None
+                for k in range(len(vals)):
+                    try:
+                        got = it.call(lab, [Ptr(f, ()), Ptr(sc, ())])
+                    except Terminal as t:
+                        if t.what != 'error': raise
+                        dup = k; break
+                    if not got: raise Terminal('error', 'label() did not take the case label')
+                if dup is not None: return ('diagnosed', dup)
+                del it.models['funclabel']
+                st_ = it.call(mkblock, [Ptr(it.mkstr(list(b'start'), 'start'), (0,))])
+                f.f[('start',)] = st_; f.f[('end',)] = st_; f.f[('lastid',)] = 0
+                dflt = it.call(mkblock, [Ptr(it.mkstr(list(b'default'), 'default'), (0,))])
+                v = cmodel.val('v')
+                it.call(fsw, [Ptr(f, ()), v, Ptr(cases, ()), dflt])
+                sim = simulate(it, Ptr(f, ()), v, J, prog, names)
+                res = {}
+                bits = B[ty][0]
+                probes = sorted({conv(x, ty) for x in vals} | {conv(x, ty) + 1 for x in vals} | {0, -1 if B[ty][1] else 2 ** bits - 1})
+                for p in probes:
+                    if conv(p, ty) != p: continue
+                    where, _ = sim(p % 2 ** 64 if bits == 64 else p % 2 ** 32, set())       # the value in the temporary: class w holds 32 bits
+                    idx = next((k for k, b in enumerate(bodies) if b == where), None)
+                    res[p] = idx if idx is not None else ('default' if where == dflt else repr(where))
+                return ('accepted', res)
+            runs = explore(prog, runner, M, max_runs=2, on_unsupported='keep')
+            key = 'case-conversion:%s{%s}' % (ty, ', '.join('%#x' % v if abs(v) > 2 ** 20 else str(v) for v in vals))
+            if len(runs) != 1 or runs[0].outcome != 'return':
+                raise AnalysisBroken('%s: %s' % (key, [(x.outcome, x.detail) for x in runs][:2]))
+            what, info = runs[0].value
+            cv = [conv(x, ty) for x in vals]
+            firstdup = next((k for k in range(len(cv)) if cv[k] in cv[:k]), None)
+            if firstdup is not None:
+                r.instance(what == 'diagnosed' and info == firstdup, key, 'stmt.c:label', 'after conversion to %s the constants are %s: label %d repeats an earlier value and must be diagnosed; cproc: %s %s' % (ty, cv, firstdup, what, info if what == 'diagnosed' else ''))
+                continue
+            if what != 'accepted':
+                r.instance(False, key, 'stmt.c:label', 'distinct constants %s rejected at label %s' % (cv, info)); continue
+            bad = {p: got for p, got in info.items() if got != (cv.index(p) if p in cv else 'default')}
+            r.instance(not bad, key, 'stmt.c:label / qbe.c:casesearch', 'converted constants %s; wrong dispatch (value -> label index): %s' % (cv, bad))
+    r.exhaustive = False
+
+
 def run(chk, tier):
     prog = facts.programs()['cproc-qbe']
     chk.guard('C15.abc', lambda: rule_orders(chk, prog, tier))
     chk.guard('C15.d', lambda: rule_static_escape(chk, prog, tier))
     chk.guard('C15.e', lambda: rule_controlling(chk, prog, tier))
+    chk.guard('C15.f', lambda: rule_case_conversion(chk, prog, tier))
